@@ -5,7 +5,7 @@ from props import _proto
 
 ID = "C06a"
 IMPORTS = ["CaresProps.C06a"]
-LEAN_TARGETS = ["CaresProps.C06a", "driver_proto"]
+LEAN_TARGETS = ["CaresProps.C06a", "driver_proto"]   # CaresLemmas/Float32.lean imports Mathlib.Tactic.Ring / Linarith
 THEOREMS = [
     "Cares.C06a.calc_shift_guarded",
     "Cares.C06a.timeout_constants",
@@ -17,6 +17,8 @@ THEOREMS = [
     "Cares.C06a.timeout_bounds_full",
     "Cares.C06a.first_pass_exact",
     "Cares.C06a.jitter_window",
+    "Cares.C06a.jitter_exact_ok",
+    "Cares.C06a.timeout_bounds_tree",
     "Cares.C06a.no_ub_guarded",
     "Cares.C06a.no_ub",
     "Cares.C06a.c06_f10_pinned_shift_ub",
@@ -36,8 +38,9 @@ TRUSTED = [
 ]
 ASSUMPTIONS = [
     "x86-64 / SSE float evaluation (FLT_EVAL_METHOD = 0) for the exact jitter model",
-    "the theorems use the interval abstraction of the jitter (JitOk: at most half of the value plus float rounding); that "
-    "the exact model lies in the interval is checked by the driver on every observed attempt, not proved",
+    "the general theorems use the interval abstraction of the jitter (JitOk: at most tp*(1/2 + 2^-24 + 2^-49)); that the "
+    "exact binary32 model lies in it is proved (CaresLemmas/Float32.lean, jitter_exact_ok) and also re-checked by the driver "
+    "on every observed attempt",
     "budget logic, non-counting resends and termination are the channel model's part of C06",
 ]
 EXPLANATION = "arithmetic part of C06: see CaresProps/C06a.lean"
